@@ -10,6 +10,7 @@ import json
 import multiprocessing as mp
 import os
 import random
+import re
 import subprocess
 import time
 import traceback
@@ -21,7 +22,9 @@ import modelrun
 import terms
 
 CONFIG = {
-    'C11': dict(profiles=['resources', 'indicators', 'buffers', 'optional', 'mixed'], n=(200, 3000)),
+    'C11': dict(profiles=['resources', 'indicators', 'buffers', 'optional', 'mixed'], n=(200, 3000), extra=None),
+    'C16': dict(profiles=['resources', 'indicators', 'buffers', 'optional', 'objectives'], n=(150, 2000), extra='export'),
+    'C17': dict(profiles=['resources', 'buffers', 'optional', 'tasks', 'indicators'], n=(150, 2000), extra='gantt'),
 }
 
 EPOCH = datetime.datetime(1970, 1, 1)
@@ -59,6 +62,13 @@ def py_report(sol):
     for name, v in sol.indicators.items():
         lines.append('IND %s = %s' % (name, show_z(v)))
     return lines
+
+
+def zparse(tokens):
+    """integers printed as 12 or (- 3) at the start of a token list"""
+    txt = ' '.join(tokens)
+    m = re.match(r'\(- (\d+)\)|(-?\d+)', txt)
+    return (-int(m.group(1)) if m.group(1) else int(m.group(2)),)
 
 
 def canon(lines):
@@ -151,8 +161,228 @@ def clause_checks(prog, sol, delta_us, t0):
     return bad
 
 
+def col_index(letters):
+    n = 0
+    for ch in letters:
+        n = n * 26 + (ord(ch) - 64)
+    return n - 1
+
+
+def read_xlsx(path):
+    """-> {sheet title: [(row, c1, c2, value)]} from the raw xlsx (zip + XML), merged ranges resolved"""
+    import zipfile
+    import xml.etree.ElementTree as ET
+    ns = {'m': 'http://schemas.openxmlformats.org/spreadsheetml/2006/main'}
+    z = zipfile.ZipFile(path)
+    shared = []
+    if 'xl/sharedStrings.xml' in z.namelist():
+        root = ET.fromstring(z.read('xl/sharedStrings.xml'))
+        for si in root.findall('m:si', ns):
+            shared.append(''.join(t.text or '' for t in si.iter('{%s}t' % ns['m'])))
+    wb = ET.fromstring(z.read('xl/workbook.xml'))
+    titles = [sh.get('name') for sh in wb.find('m:sheets', ns)]
+    out = {}
+    for k, title in enumerate(titles):
+        root = ET.fromstring(z.read('xl/worksheets/sheet%d.xml' % (k + 1)))
+        merges = {}
+        mc = root.find('m:mergeCells', ns)
+        if mc is not None:
+            for m in mc:
+                a, b = m.get('ref').split(':')
+                ma = re.match(r'([A-Z]+)(\d+)', a)
+                mb = re.match(r'([A-Z]+)(\d+)', b)
+                merges[(int(ma.group(2)) - 1, col_index(ma.group(1)))] = col_index(mb.group(1))
+        cells = []
+        inside = set()
+        for (r0, c0), c1 in merges.items():
+            for cc in range(c0 + 1, c1 + 1):
+                inside.add((r0, cc))
+        for c in root.iter('{%s}c' % ns['m']):
+            v = c.find('m:v', ns)
+            m = re.match(r'([A-Z]+)(\d+)', c.get('r'))
+            row, col = int(m.group(2)) - 1, col_index(m.group(1))
+            if (row, col) in inside:
+                continue          # padding of a merged range
+            if v is None:
+                val = ''          # a formatted blank cell: a bar without text
+            else:
+                val = shared[int(v.text)] if c.get('t') == 's' else v.text
+            cells.append((row, col, merges.get((row, col), col), val))
+        out[title] = cells
+    return out
+
+
+def export_lines(sol, solver, im, work, idx, k):
+    """C16: the lines of Coq's export_report read back from the real exported files + direct comparisons"""
+    import csv
+    import ast
+    import z3
+    lines, probs = [], []
+    # --- CSV (through the data frame) ---
+    txt = sol.to_csv()
+    rows = list(csv.DictReader(io.StringIO(txt)))
+    df = sol.to_df()
+    if len(rows) != len(sol.tasks) or len(df) != len(sol.tasks):
+        probs.append(('csv_rows', '%d rows for %d tasks' % (len(rows), len(sol.tasks))))
+    for row in rows:
+        res = ast.literal_eval(row['Allocated Resources'])
+        lines.append('DF %s [%s] %s %s %s %s' % (row['Task name'], ','.join(res), show_z(int(row['Start'])), show_z(int(row['End'])),
+                                                  show_z(int(row['Duration'])), 'true' if row['Scheduled'] == 'True' else 'false'))
+    for (_, r), name in zip(df.iterrows(), sol.tasks):
+        t = sol.tasks[name]
+        if (r['Task name'], list(r['Allocated Resources']), int(r['Start']), int(r['End']), int(r['Duration']), bool(r['Scheduled'])) != \
+                (name, list(t.assigned_resources), t.start, t.end, t.duration, t.scheduled):
+            probs.append(('dataframe_mismatch', name))
+    # --- JSON ---
+    js = json.loads(sol.to_json())
+    for name, t in sol.tasks.items():
+        j = js['tasks'].get(name)
+        if j is None or (j['start'], j['end'], j['duration'], j['scheduled'], j['assigned_resources']) != \
+                (t.start, t.end, t.duration, t.scheduled, list(t.assigned_resources)):
+            probs.append(('json_task_mismatch', name))
+    for name, r in sol.resources.items():
+        j = js['resources'].get(name)
+        if j is None or [tuple(a) for a in j['assignments']] != [tuple(a) for a in r.assignments]:
+            probs.append(('json_resource_mismatch', name))
+    for name, b in sol.buffers.items():
+        j = js['buffers'].get(name)
+        if j is None or j['level'] != list(b.level) or j['level_change_times'] != list(b.level_change_times):
+            probs.append(('json_buffer_mismatch', name))
+    if js['indicators'] != dict(sol.indicators) or js['horizon'] != sol.horizon:
+        probs.append(('json_indicator_mismatch', ''))
+    # --- Excel ---
+    fn = os.path.join(work, 'sol_%d_%d_%d.xlsx' % (os.getpid(), idx, k))
+    with warnings.catch_warnings():
+        warnings.simplefilter('ignore')
+        sol.to_excel_file(fn)
+    sheets = read_xlsx(fn)
+    os.remove(fn)
+    for title, tag in (('GANTT Resource view', 'R'), ('GANTT Task view', 'T')):
+        for (row, c1, c2, val) in sheets.get(title, []):
+            if row == 0 or c1 == 0:
+                continue          # header row, name column
+            lines.append('XLS %s %d %s %s %s' % (tag, row, show_z(c1), show_z(c2), val))
+    names_col = {(row): val for (row, c1, c2, val) in sheets.get('GANTT Task view', []) if c1 == 0 and row > 0}
+    for i, name in enumerate(sol.tasks):
+        if names_col.get(i + 1) != name:
+            probs.append(('excel_task_name_overwritten', '%s: row %d shows %r' % (name, i + 1, names_col.get(i + 1))))
+    for (row, c1, c2, val) in sheets.get('Indicators', []):
+        pass
+    ind = {}
+    for (row, c1, c2, val) in sheets.get('Indicators', []):
+        if row > 0:
+            ind.setdefault(row, {})[c1] = val
+    for row in sorted(ind):
+        lines.append('XLS I %d %s = %s' % (row, ind[row].get(0), show_z(int(float(ind[row].get(1))))))
+    # --- SMT-LIB ---
+    fn = os.path.join(work, 'pb_%d_%d_%d.smt2' % (os.getpid(), idx, k))
+    solver.export_to_smt2(fn)
+    try:
+        vec = z3.parse_smt2_file(fn)
+        exported = z3.And(list(vec)) if len(vec) else z3.BoolVal(True)
+        orig = z3.And(list(solver._solver.assertions())) if len(solver._solver.assertions()) else z3.BoolVal(True)
+        # the parser creates its own constants: identify them by name
+        s1 = z3.Solver()
+        s1.set('timeout', 10000)
+        # same names denote the same constants in one context, so the two formulas can be compared directly
+        s1.add(exported != orig)
+        r = s1.check()
+        if r == z3.sat:
+            probs.append(('smt2_differs', 'the exported file is not equivalent to the assertions the solver checks'))
+        elif r == z3.unknown:
+            lines.append('NOTE smt2 equivalence undecided')
+    except z3.Z3Exception as e:
+        probs.append(('smt2_does_not_parse', str(e)[:200]))
+    os.remove(fn)
+    return lines, probs
+
+
+def roundtrip_checks(im):
+    """C16: task and cost function definitions survive a JSON round trip"""
+    import processscheduler as ps
+    probs = []
+    tasks = list(im.tasks.values())
+    workers = [w for key, w in im.workers.items() if key[0] == 'WPlain']
+    dumps = [(t, t.to_json()) for t in tasks]
+    wdumps = [(w, w.to_json(), w.cost.to_json(), type(w.cost)) for w in workers]
+    with contextlib.redirect_stdout(io.StringIO()):
+        pb2 = ps.SchedulingProblem(name='roundtrip')
+    for t, js in dumps:
+        try:
+            t2 = pb2.add_from_json(js)
+        except Exception as e:
+            probs.append(('json_roundtrip_task', '%s: %s' % (t.name, str(e)[:100])))
+            continue
+        a, b = t.model_dump(), t2.model_dump()
+        if a != b:
+            probs.append(('json_roundtrip_task', '%s: %s' % (t.name, [(k2, a[k2], b.get(k2)) for k2 in a if a[k2] != b.get(k2)][:3])))
+    for w, js, cjs, ctype in wdumps:
+        try:
+            c2 = ctype.model_validate_json(cjs)
+            if c2.model_dump() != w.cost.model_dump():
+                probs.append(('json_roundtrip_cost', w.name))
+            w2 = pb2.add_from_json(js)
+            if w2.model_dump() != w.model_dump():
+                probs.append(('json_roundtrip_worker', w.name))
+        except Exception as e:
+            probs.append(('json_roundtrip_cost', '%s: %s' % (w.name, str(e)[:100])))
+    return probs
+
+
+def gantt_lines(sol):
+    """C17: the lines of Coq's gantt_report read from the matplotlib artists"""
+    import math
+    import matplotlib
+    matplotlib.use('Agg')
+    import matplotlib.pyplot as plt
+    from processscheduler.plotter import render_gantt_matplotlib
+    lines, probs = [], []
+
+    def t20(x):
+        v = x * 20
+        if abs(v - round(v)) > 1e-6:
+            probs.append(('gantt_coordinate_off_grid', repr(x)))
+        return int(round(v))
+    for mode in ('Resource', 'Task'):
+        plt.close('all')
+        try:
+            with warnings.catch_warnings():
+                warnings.simplefilter('ignore')
+                render_gantt_matplotlib(sol, show_plot=False, render_mode=mode)
+        except Exception as e:
+            probs.append(('gantt_render_failed', '%s: %s' % (mode, str(e)[:150])))
+            continue
+        fig = plt.gcf()
+        ax = fig.axes[0]
+        bars = []
+        for coll in ax.collections:
+            for path in coll.get_paths():
+                xs = [v[0] for v in path.vertices]
+                ys = [v[1] for v in path.vertices]
+                bars.append((min(xs), max(xs) - min(xs), min(ys), max(ys) - min(ys)))
+        texts = [(t.get_position(), t.get_text()) for t in ax.texts]
+        if len(texts) != len(bars):
+            probs.append(('gantt_text_count', '%d texts for %d bars' % (len(texts), len(bars))))
+        for (x, w, y, h), ((tx, ty), txt) in zip(bars, texts):
+            if abs(h - 2) > 1e-9 or abs(y / 2 - round(y / 2)) > 1e-9 or abs(ty - (y + 1)) > 1e-9:
+                probs.append(('gantt_row_geometry', '%r' % ((x, w, y, h, tx, ty),)))
+            lines.append('GANTT %s %d %s %s %s %s' % (mode, int(round(y / 2)), show_z(t20(x)), show_z(t20(w)), show_z(t20(tx)), txt))
+        for lab in ax.get_yticklabels():
+            lines.append('LABEL %s %s' % (mode, lab.get_text()))
+        if mode == 'Resource' and len(fig.axes) > 1:
+            for ln in fig.axes[1].lines:
+                xd, yd = list(ln.get_xdata()), list(ln.get_ydata())
+                for j in range(0, len(xd) - 1, 3):
+                    if abs(yd[j] - yd[j + 1]) > 1e-9 or not (math.isnan(xd[j + 2]) if j + 2 < len(xd) else True):
+                        probs.append(('gantt_buffer_segment', ln.get_label()))
+                    lines.append('STEP %s %s %s %s' % (ln.get_label(), show_z(int(round(xd[j]))), show_z(int(round(xd[j + 1]))),
+                                                     show_z(int(round(yd[j])))))
+        plt.close('all')
+    return lines, probs
+
+
 def observe(args):
-    idx, prog, seed, tier = args
+    idx, prog, seed, tier, extra, work = args
     import z3
     import processscheduler as ps
     import impl
@@ -197,8 +427,17 @@ def observe(args):
                     vals_i[tgt.decl().name()] = v.as_long()
                 elif z3.is_true(v) or z3.is_false(v):
                     vals_b[tgt.decl().name()] = bool(z3.is_true(v))
-            out['sols'].append({'report': py_report(sol), 'ivals': vals_i, 'bvals': vals_b,
-                                'clauses': clause_checks(prog, sol, delta_us, t0)})
+            rec = {'report': py_report(sol), 'ivals': vals_i, 'bvals': vals_b,
+                   'clauses': clause_checks(prog, sol, delta_us, t0) if extra is None else []}
+            if extra == 'export':
+                ls, pr = export_lines(sol, solver, im, work, idx, nsol)
+                rec['report'] = rec['report'] + ls
+                rec['clauses'] += pr
+            elif extra == 'gantt':
+                ls, pr = gantt_lines(sol)
+                rec['report'] = rec['report'] + ls
+                rec['clauses'] += pr
+            out['sols'].append(rec)
             nsol += 1
             if nsol >= 3 or r.random() < 0.4:
                 break
@@ -206,12 +445,14 @@ def observe(args):
                 warnings.simplefilter('ignore')
                 sol = solver.find_another_solution()
         out['status'] = 'solved' if out['sols'] else 'nosolution'
+        if extra == 'export' and out['sols']:
+            out['sols'][-1]['clauses'] += roundtrip_checks(im)
     except Exception:
         out['error'] = traceback.format_exc()[-1500:]
     return out
 
 
-def model_solutions(ctx, cases):
+def model_solutions(ctx, cases, fn='solution_of'):
     """cases: list of (prog, ivals, bvals, delta, t0) -> list of report line lists (extracted model)"""
     d = os.path.join(ctx.work, 'mlsol')
     os.makedirs(d, exist_ok=True)
@@ -226,7 +467,7 @@ def model_solutions(ctx, cases):
     with open(os.path.join(d, 'main.ml'), 'w') as f:
         f.write('let str (l : char list) : string = String.of_seq (List.to_seq l)\n'
                 'let () = List.iteri (fun i (p, iv, bv, d, t) -> print_string ("CASE " ^ string_of_int i ^ "\\n");\n'
-                '  List.iter (fun l -> print_string (str l); print_char \'\\n\') (Model.solution_of p Model.default_cfg iv bv d t)) Cases.cases\n')
+                '  List.iter (fun l -> print_string (str l); print_char \'\\n\') (Model.%s p Model.default_cfg iv bv d t)) Cases.cases\n' % fn)
     cmd = ['ocamlfind', 'ocamlopt', '-w', '-a', '-I', modelrun.GEN, os.path.join(modelrun.GEN, 'model.cmx'),
            os.path.join(modelrun.GEN, 'helpers.cmx'), 'cases.ml', 'main.ml', '-o', 'run']
     r = subprocess.run(['bash', '-c', 'ulimit -s unlimited 2>/dev/null; exec "$@"', 'sh'] + cmd, cwd=d, capture_output=True, text=True, timeout=900)
@@ -243,7 +484,7 @@ def model_solutions(ctx, cases):
     return reps
 
 
-def kernel_solutions(ctx, cases):
+def kernel_solutions(ctx, cases, fn='solution_of'):
     vf = os.path.join(ctx.work, 'ksol.v')
     oz = lambda v: 'None' if v is None else '(Some (%d)%%Z)' % v
     with open(vf, 'w') as f:
@@ -251,8 +492,8 @@ def kernel_solutions(ctx, cases):
                 'Import ListNotations.\nOpen Scope string_scope.\n')
         for i, (prog, iv, bv, delta, t0) in enumerate(cases):
             f.write('Definition p%d : list op := %s.\n' % (i, terms.to_coq(prog)))
-            f.write('Eval vm_compute in ("CASE" :: solution_of p%d default_cfg [%s] [%s] %s %s).\n' % (
-                i, '; '.join('("%s", (%d)%%Z)' % (k, v) for k, v in sorted(iv.items())),
+            f.write('Eval vm_compute in ("CASE" :: %s p%d default_cfg [%s] [%s] %s %s).\n' % (
+                fn, i, '; '.join('("%s", (%d)%%Z)' % (k, v) for k, v in sorted(iv.items())),
                 '; '.join('("%s", %s)' % (k, 'true' if v else 'false') for k, v in sorted(bv.items())), oz(delta), oz(t0)))
     r = subprocess.run(['coqc'] + common.COQFLAGS + [vf], cwd=common.COQ, capture_output=True, text=True, timeout=1800)
     if r.returncode != 0:
@@ -301,7 +542,7 @@ def run(ctx, replay=None):
             per_profile[pf] = k
     t1 = time.time()
     with mp.get_context('fork').Pool(16) as pool:
-        results = pool.map(observe, [(i, p, ctx.seed, ctx.tier) for i, p in enumerate(progs)], chunksize=2)
+        results = pool.map(observe, [(i, p, ctx.seed, ctx.tier, cfg['extra'], ctx.work) for i, p in enumerate(progs)], chunksize=2)
     t_impl = time.time() - t1
     cases, where = [], []
     stats = collections.Counter()
@@ -312,14 +553,15 @@ def run(ctx, replay=None):
         for k, s in enumerate(res['sols']):
             cases.append((progs[res['idx']], s['ivals'], s['bvals'], res.get('delta'), res.get('t0')))
             where.append((res['idx'], k))
+    fn = 'solution_of' if cfg['extra'] is None else 'full_solution_of'
     reports = []
     SH = 150
     for si in range(0, len(cases), SH):
         sub = cases[si:si + SH]
         ctx2 = collections.namedtuple('C', 'work')(os.path.join(ctx.work, 'sh%d' % si))
-        reports += model_solutions(ctx2, sub)
+        reports += model_solutions(ctx2, sub, fn)
     kslice = list(range(0, len(cases), max(1, len(cases) // 20)))[:20]
-    kreps = kernel_solutions(ctx, [cases[i] for i in kslice]) if cases else []
+    kreps = kernel_solutions(ctx, [cases[i] for i in kslice], fn) if cases else []
     kernel_mismatch = [i for i, kr in zip(kslice, kreps) if kr != reports[i]]
     if kernel_mismatch:
         path = common.write_replay(ctx, 'extraction', {'kind': 'extraction-vs-kernel', 'cases': kernel_mismatch[:3]})
@@ -333,6 +575,55 @@ def run(ctx, replay=None):
         res = results[idx]
         s = res['sols'][k]
         stats['solutions'] += 1
+        if cfg['extra'] == 'export':
+            rep = [l for l in rep if not l.startswith(('GANTT ', 'LABEL ', 'STEP '))]
+            # cells left of column 1: xlsxwriter refuses negative columns and column 0 is the name column (finding F25)
+            neg = [l for l in rep if l.startswith(('XLS R ', 'XLS T ')) and zparse(l.split(' ', 5)[3:5])[0] < 1]
+            if neg:
+                known_hits['excel_negative_start'] += 1 if 'excel_negative_start' in open_kinds else 0
+                if 'excel_negative_start' not in open_kinds:
+                    clause_viol.append((idx, k, 'excel_negative_start', neg[0]))
+                rep = [l for l in rep if l not in neg]
+            # a zero-length assignment is written as one cell at column start + 1: it may land on the cell of another
+            # assignment of the same row (the later write wins) -- finding F25; such rows are compared without them
+            def bars_of(lines_):
+                out_ = []
+                for l_ in lines_:
+                    if l_.startswith(('XLS R ', 'XLS T ')):
+                        p_ = l_.split(' ')
+                        rest = ' '.join(p_[3:])
+                        m_ = re.match(r'(\(- \d+\)|-?\d+) (\(- \d+\)|-?\d+)', rest)
+                        c1_, c2_ = zparse([m_.group(1)])[0], zparse([m_.group(2)])[0]
+                        out_.append((l_, p_[1], int(p_[2]), c1_, c2_))
+                return out_
+            mb = bars_of(rep)
+            clash = set()
+            for a_ in range(len(mb)):
+                for b_ in range(a_ + 1, len(mb)):
+                    if mb[a_][1:3] == mb[b_][1:3] and mb[a_][3] <= mb[b_][4] and mb[b_][3] <= mb[a_][4]:
+                        clash.add((mb[a_][1], mb[a_][2]))
+            if clash:
+                known_hits['excel_cells_overwritten'] += 1 if 'excel_cells_overwritten' in open_kinds else 0
+                if 'excel_cells_overwritten' not in open_kinds:
+                    clause_viol.append((idx, k, 'excel_cells_overwritten', str(sorted(clash))))
+                rep = [l for l in rep if not any(l == b_[0] and (b_[1], b_[2]) in clash for b_ in mb)]
+                ib = bars_of(s['report'])
+                s['report'] = [l for l in s['report'] if not any(l == b_[0] and (b_[1], b_[2]) in clash for b_ in ib)]
+            s['report'] = [l for l in s['report'] if not l.startswith('NOTE ')]
+            s['clauses'] = [(kd, dt) for kd, dt in s['clauses'] if not (kd == 'excel_task_name_overwritten' and neg)]
+        elif cfg['extra'] == 'gantt':
+            rep = [l for l in rep if not l.startswith(('DF ', 'XLS '))]
+            # an inverted busy interval (end < start, finding F26) is the same rectangle drawn from its other corner
+            fixed = []
+            for l in rep:
+                if l.startswith('GANTT '):
+                    m_ = re.match(r'(GANTT \S+ \d+) (\(- \d+\)|-?\d+) (\(- \d+\)|-?\d+) (.*)$', l)
+                    x_, w_ = zparse([m_.group(2)])[0], zparse([m_.group(3)])[0]
+                    if w_ < 0:
+                        stats['inverted_intervals'] += 1
+                        l = '%s %s %s %s' % (m_.group(1), show_z(x_ + w_), show_z(-w_), m_.group(4))
+                fixed.append(l)
+            rep = fixed
         if canon(s['report']) == canon(rep):
             stats['reports_agree'] += 1
         else:
